@@ -20,7 +20,8 @@ theorem encAs_fun : ∀ {t : Ty} {x y : Obj}, EncAs w cfg t x y → y = un w cfg
   | _, _, _, .bytes => by simp [un]
   | _, _, _, .bool => by simp [un]
   | _, _, _, .enum h => by simp [un, enumValue, h]
-  | _, x, _, .lit => by cases x <;> simp [un]
+  | _, x, _, .lit h => by rw [un]; simp [h]
+  | _, _, _, .litE h hr => by rw [un]; simp only [h, if_true]; exact encRt_fun hr
   | _, _, _, .collG hg h => by rw [un, if_pos hg, encL_fun h]
   | _, _, _, .collB hg h => by rw [un, if_neg (by simp [hg]), encRtL_fun h]
   | _, _, _, .tupG hg h => by rw [un, if_pos hg, encT_fun h]
@@ -296,8 +297,12 @@ theorem enc_aux (hws : w.SupU cfg.gen) :
         have : (w.members e)[mm]? = some ((w.members e)[mm]'hm) := by simp [hm]
         rw [this]; exact .enum this
       | lit vs =>
-        have : un w cfg (.lit vs) x = x := by cases x <;> simp [un]
-        rw [this]; exact .lit
+        rw [wellTyped] at hwt
+        simp only [Bool.and_eq_true] at hwt
+        rw [un]
+        cases he : litHasEnum vs with
+        | false => simp only [Bool.false_eq_true, if_false]; exact .lit he
+        | true => simp only [if_true]; exact .litE he (hAny x hx hwt.2)
       | coll k t' =>
         cases x with
         | coll ck xs =>
